@@ -193,7 +193,12 @@ good_sync = st.one_of(
     st.builds(lambda p, t, n: f"{p}{t} = B {n}", _pad, _num, _num),
     st.builds(lambda p, t, u: f"{p}{t} = TS {u}", _pad, _num, _num),
     st.builds(lambda p, t, u, l: f"{p}{t} = TS {u} {l}", _pad, _num, _num, st.integers(0, 9).map(str)),
-    st.builds(lambda p, t, n: f"{p}{t} = A {n}", _pad, _num, _num))
+    st.builds(lambda p, t, n: f"{p}{t} = A {n}", _pad, _num, _num),
+    # padded on the right as well: whether a kind tolerates trailing blanks is the recognisers'
+    # business; the section parser must agree with them line by line (checked in part datum)
+    st.builds(lambda p, t, n, q: f"{p}{t} = A {n}{q}", _pad, _num, _num, _pad),
+    st.builds(lambda p, t, n, q: f"{p}{t} = B {n}{q}", _pad, _num, _num, _pad),
+    st.builds(lambda p, t, u, q: f"{p}{t} = TS {u}{q}", _pad, _num, _num, _pad))
 good_instr = st.one_of(
     st.builds(lambda p, t, i, n, q: f"{p}{t} = N {i} {n}{q}", _pad, _num, st.integers(0, 7), _num, _pad),
     st.builds(lambda p, t, n, q: f"{p}{t} = S 2 {n}{q}", _pad, _num, _num, _pad),
